@@ -1,6 +1,9 @@
 package formula
 
-import "time"
+import (
+	"context"
+	"time"
+)
 
 func init() {
 	vpHarnesses["VP_C19_date"] = VP_C19_date
@@ -87,12 +90,14 @@ func vpStubDateOf(t time.Time) (int, time.Month, int) {
 	return vpStubYear(t), vpStubMonth(t), vpStubDay(t)
 }
 func vpStubClock(t time.Time) (int, int, int) { return vpStubHour(t), vpStubMinute(t), vpStubSecond(t) }
-func vpStubYear(t time.Time) int          { return int(vpUF("year", t.Unix(), vpLocID(t.Location()))) }
-func vpStubMonth(t time.Time) time.Month  { return time.Month(vpUF("month", t.Unix(), vpLocID(t.Location()))) }
-func vpStubDay(t time.Time) int           { return int(vpUF("day", t.Unix(), vpLocID(t.Location()))) }
-func vpStubHour(t time.Time) int          { return int(vpUF("hour", t.Unix(), vpLocID(t.Location()))) }
-func vpStubMinute(t time.Time) int        { return int(vpUF("minute", t.Unix(), vpLocID(t.Location()))) }
-func vpStubSecond(t time.Time) int        { return int(vpUF("second", t.Unix(), vpLocID(t.Location()))) }
+func vpStubYear(t time.Time) int              { return int(vpUF("year", t.Unix(), vpLocID(t.Location()))) }
+func vpStubMonth(t time.Time) time.Month {
+	return time.Month(vpUF("month", t.Unix(), vpLocID(t.Location())))
+}
+func vpStubDay(t time.Time) int    { return int(vpUF("day", t.Unix(), vpLocID(t.Location()))) }
+func vpStubHour(t time.Time) int   { return int(vpUF("hour", t.Unix(), vpLocID(t.Location()))) }
+func vpStubMinute(t time.Time) int { return int(vpUF("minute", t.Unix(), vpLocID(t.Location()))) }
+func vpStubSecond(t time.Time) int { return int(vpUF("second", t.Unix(), vpLocID(t.Location()))) }
 func vpStubWeekday(t time.Time) time.Weekday {
 	return time.Weekday(vpUF("weekday", t.Unix(), vpLocID(t.Location())))
 }
@@ -243,7 +248,7 @@ func VP_C19_fields() {
 			days--
 		}
 		ch, cmi, cs = rem/3600, rem%3600/60, rem%60
-		cw = ((days%7)+11)%7 // 1970-01-01 was a Thursday
+		cw = ((days % 7) + 11) % 7 // 1970-01-01 was a Thursday
 		// civil from days (inverse of vpDaysFromCivil)
 		z := days + 719468
 		era := z / 146097
@@ -372,4 +377,41 @@ func VP_C19_zone() {
 		vpAssert("C19/zone/toDay-location-local", v.Location() == time.Local)
 	}
 	vpReach("C19/zone/done")
+}
+
+func init() {
+	vpHarnesses["VP_C19_pool"] = VP_C19_pool
+}
+
+// C19/pool: CONCRETE POOL through the parser and the runner with the real time
+// package (no uninterpreted functions): boundary dates of the proleptic
+// Gregorian calendar (year 1, leap days, month/day carry, the zero instant
+// 0001-01-01T00:00:00Z as a value like any other), expectations by hand.
+func VP_C19_pool() {
+	pool := []struct {
+		f    string
+		want int
+	}{
+		{"year(date(1, 1, 1))", 1}, {"month(date(1, 1, 1))", 1}, {"day(date(1, 1, 1))", 1}, {"year(date(0, 13, 1))", 1}, {"day(date(1, 0, 32))", 1},
+		{"year(z)", 1}, {"month(z)", 1}, {"weekDay(z)", 1}, {"hour(z)", 0}, {"year(addDate(date(1, 1, 2), 0, 0, -1))", 1},
+		{"day(date(2024, 2, 30))", 1}, {"month(date(2024, 2, 30))", 3}, {"day(date(2023, 2, 29))", 1}, {"day(date(1900, 2, 29))", 1}, {"day(date(2000, 2, 29))", 29},
+		{"month(date(2023, 14, 1))", 2}, {"year(date(2023, 14, 1))", 2024}, {"month(date(2024, 0, 1))", 12}, {"year(date(2024, 0, 1))", 2023}, {"day(date(2024, 3, 0))", 29},
+		{"weekDay(date(2024, 2, 29))", 4}, {"weekDay(date(2000, 1, 1))", 6}, {"day(addDate(date(2024, 1, 31), 0, 1, 0))", 2}, {"month(addDate(date(2024, 1, 31), 0, 1, 0))", 3},
+		{"year(addDate(date(2024, 12, 31), 0, 0, 1))", 2025}, {"day(addDate(date(2024, 3, 1), 0, 0, -1))", 29}, {"year(date(9999, 12, 31))", 9999}, {"hour(date(2024, 5, 5))", 0},
+		{"millSecond(addDate(date(1970, 1, 1), 0, 0, 1)) - millSecond(date(1970, 1, 1))", 86400000},
+		{"millSecond(addDate(date(2000, 1, 1), 0, 0, 200000)) - millSecond(date(2000, 1, 1)) === 200000 * 86400000 ? 1 : 0", 1},
+	}
+	p := pool[vpChoice("f", len(pool))]
+	code, err := ParseSourceCode([]byte(p.f))
+	vpAssert("C19/pool/parses", err == nil)
+	if err != nil {
+		return
+	}
+	r := NewRunner()
+	r.SetThis(map[string]interface{}{"z": time.Time{}})
+	v, rerr := r.Resolve(context.Background(), code.Expression)
+	f, ok := v.(float64)
+	vpObserve("pool", p.f, f, rerr != nil)
+	vpAssert("C19/pool/civil-fields", rerr == nil && ok && f == float64(p.want))
+	vpReach("C19/pool/done")
 }
